@@ -1738,6 +1738,9 @@ func (h *ResponseHeader) setSpecialHeader(key, value []byte) bool {
 			if contentLength, err := ParseContentLength(value); err == nil {
 				h.contentLength = contentLength
 				h.contentLengthBytes = append(h.contentLengthBytes[:0], value...)
+				// a message has one framing (as in SetContentLength): a "Transfer-Encoding: chunked"
+				// left by an earlier body stream of unknown length must not be written next to it
+				h.h = delAllArgsBytes(h.h, bytestr.StrTransferEncoding)
 			}
 			return true
 		} else if utils.CaseInsensitiveCompare(bytestr.StrContentEncoding, key) {
@@ -1798,6 +1801,9 @@ func (h *RequestHeader) setSpecialHeader(key, value []byte) bool {
 			if contentLength, err := ParseContentLength(value); err == nil {
 				h.contentLength = contentLength
 				h.contentLengthBytes = append(h.contentLengthBytes[:0], value...)
+				// a message has one framing (as in SetContentLength): a "Transfer-Encoding: chunked"
+				// left by an earlier body stream of unknown length must not be written next to it
+				h.h = delAllArgsBytes(h.h, bytestr.StrTransferEncoding)
 			}
 			return true
 		} else if utils.CaseInsensitiveCompare(bytestr.StrConnection, key) {
